@@ -30,7 +30,7 @@ CHECKS = {
     "C03": dict(
         engine="S", category="model_checking", design="3/C03",
         technique="bounded exhaustive exploration of clause sets x call histories on the real runtime; verdict line multiset compared with a reference model",
-        text="Clause sets of <= 2 (quick) / <= 3 (thorough) patterns in every quantifier form (open, some_call, exact, at-least, exact-then-open/exact/at-least, ordered counts), all histories up to depth 4 / 6; verification by drop after every history and by verify() and Termination::report() once per distinct final state. The multiset of failure lines (pattern name, kind, bound, actual) must equal the model's; silence iff no expectation is unmet. Histories with calls beyond the end of an exactly quantified chain are judged too (their response is unspecified, their count is not); forms include exactly-0, some_call + at_least, answers that park a clone of the mock in the instance; report() is also taken after no_verify_in_drop(). Both tiers also run on the no_std+spin-lock build.",
+        text="Clause sets of <= 2 (quick) / <= 3 (thorough) patterns in every quantifier form (open, some_call, exact, at-least, exact-then-open/exact/at-least, ordered counts), all histories up to depth 4 / 6; verification by drop after every history and by verify() and Termination::report() once per distinct final state. The multiset of failure lines (pattern name, kind, bound, actual) must equal the model's; silence iff no expectation is unmet. Histories with calls beyond the end of an exactly quantified chain are judged too (their response is unspecified, their count is not); forms include exactly-0, some_call + at_least, answers that park a clone of the mock in the instance; report() is also taken after no_verify_in_drop(). Both tiers also run on the no_std+spin-lock build. Ordered clauses appear with exact counts 0..2, with the implicit once and as chains ending in an unquantified tail.",
         note=S_NOTE + " Line order across methods is unspecified and not compared."),
     "C04": dict(
         engine="S", category="model_checking", design="3/C04",
@@ -50,7 +50,7 @@ CHECKS = {
     "C08": dict(
         engine="S+T", category="model_checking", design="3/C08",
         technique="bounded exhaustive exploration of call histories over all mock-error kinds x instance/thread routings on the real runtime (lock-step model), plus stateless model checking of concurrent panicking calls under a controlled scheduler",
-        text="Sequential: every history of depth 2 (all four routings: original/clone x caught/propagated to a thread boundary), depth 3 (quick: one routing; thorough: all) and depth 4 (thorough, two routings) over 16 calls covering 11 mock-error kinds, 3 user-panic origins and accepted calls; after dropping the clones the original's verification must fail iff the model saw a mock-induced panic and then contain every such panic's text in order; otherwise exactly the expectation lines. Concurrent: 2-3 threads x 1-2 panicking calls on clones, every schedule with <= 2 (quick) / <= 3 (thorough) preemptions: number of recorded errors equals number of mock-induced panics and the verdict text carries each thread's errors in program order. Every error kind is also raised by zero-argument methods. Both tiers repeat the sequential half on the no_std+spin-lock build: errors induced through clones are reported as with std; after a mock-induced panic on the original its verification must be silent (documented).",
+        text="Sequential: every history of depth 2 (all four routings: original/clone x caught/propagated to a thread boundary), depth 3 (quick: one routing; thorough: all) and depth 4 (thorough, two routings) over 16 calls covering 11 mock-error kinds, 3 user-panic origins and accepted calls; after dropping the clones the original's verification must fail iff the model saw a mock-induced panic and then contain every such panic's text in order; otherwise exactly the expectation lines. Concurrent: 2-3 threads x 1-2 panicking calls on clones, every schedule with <= 2 (quick) / <= 3 (thorough) preemptions: number of recorded errors equals number of mock-induced panics and the verdict text carries each thread's errors in program order. Every error kind is also raised by zero-argument methods. Both tiers repeat the sequential half on the no_std+spin-lock build: errors induced through clones are reported as with std; after a mock-induced panic on the original its verification must be silent (documented). Every history of up to two calls is also verified through Termination::report() (FAILURE iff the other ways fail); in the concurrent half a panic that is neither mock-induced nor raised by user code is a violation.",
         note=S_NOTE + " " + T_NOTE),
     "C09": dict(
         engine="S", category="model_checking", design="3/C09",
@@ -60,7 +60,7 @@ CHECKS = {
     "C12": dict(
         engine="S+T+G", category="model_checking", design="3/C12",
         technique="bounded exhaustive enumeration of return shapes x configuration paths x request routings with instrumented tokens on the real runtime; stateless model checking of racing requests under a controlled scheduler; exhaustive sweep of builder call chains against rustc",
-        text="Instrumented tokens count constructions, clones and drops. Every shape (plain, Option, Result both arms, Result<&T,Tok>, (&T,Tok,Tok), Option/Vec/Poll of Result<&str,Tok>, and Clone twins) x every single-use path (some_call/next_call returns, .once(), .once().then()) and multi-use path (each_call, n_times(1..3), at_least_times, single-use head + multi-use tail) x every routing of 0..3 (quick) / 0..4 (thorough) requests over original and clone: first request gets exactly the configured structure, every later request of a single-use value panics, one clone per multi-use request, nothing dropped before delivery / teardown, everything dropped exactly once. Partial mocks with a real function: an exhausted single-use value refuses, the real function is not called. Race: 2-4 threads requesting one single-use value (plain, tuple with two owned leaves, Vec/Option/Poll/Result composites), all schedules within the preemption bound: exactly one winner, losers panic, one drop. Both tiers also run on the no_std+spin-lock build.",
+        text="Instrumented tokens count constructions, clones and drops. Every shape (plain, Option, Result both arms, Result<&T,Tok>, (&T,Tok,Tok), Option/Vec/Poll of Result<&str,Tok>, and Clone twins) x every single-use path (some_call/next_call returns, .once(), .once().then()) and multi-use path (each_call, n_times(1..3), at_least_times, single-use head + multi-use tail) x every routing of 0..3 (quick) / 0..4 (thorough) requests over original and clone: first request gets exactly the configured structure, every later request of a single-use value panics, one clone per multi-use request, nothing dropped before delivery / teardown, everything dropped exactly once. Partial mocks with a real function: an exhausted single-use value refuses, the real function is not called. Race: 2-4 threads requesting one single-use value (plain, tuple with two owned leaves, Vec/Option/Poll/Result composites), all schedules within the preemption bound: exactly one winner, losers panic, one drop. Both tiers also run on the no_std+spin-lock build. A single-use ordered value listed after exactly quantified any-order clauses is delivered to its one request.",
         note=S_NOTE + " " + T_NOTE + " Duplication of a non-Clone value itself is excluded by the type system (forbid(unsafe_code))."),
     "C13": dict(
         engine="S+T", category="model_checking", design="3/C13",
@@ -70,7 +70,7 @@ CHECKS = {
     "C18": dict(
         engine="S", category="model_checking", design="3/C18",
         technique="exhaustive enumeration of metamorphic relation instances (clause shuffles, call routings, interleaved twin mocks, generic instantiations) with a differential oracle on the real runtime",
-        text="(a) two base lists of 6 clauses, every sublist of >= 2 clauses, every admissible shuffle x every history of depth 3 (quick) / 4 (thorough); (b) every history x every assignment of its calls to original / clone 1 / clone 2; (c) every pair of depth-2 histories x every interleaving on two mocks built from the same clauses; (d) every pattern list over two instantiations of a generic method x every call sequence; (e) same-named generic methods of two traits in one module: every subset configured in every clause order x every call pair. Compared with the baseline run: every call's outcome (value or panic text), all counters, ordered index, recorded errors, verdict line multiset.",
+        text="(a) two base lists of 6 clauses, every sublist of >= 2 clauses, every admissible shuffle x every history of depth 3 (quick) / 4 (thorough); (b) every history x every assignment of its calls to original / clone 1 / clone 2; (c) every pair of depth-2 histories x every interleaving on two mocks built from the same clauses; (d) every pattern list over two instantiations of a generic method x every call sequence; (e) same-named generic methods of two traits in one module: every subset configured in every clause order x every call pair. Compared with the baseline run: every call's outcome (value or panic text), all counters, ordered index, recorded errors, verdict line multiset. (b) is repeated with no_verify_in_drop() right after construction and an explicit verify() at the end; (e) includes two instantiations of one generic method in different ordering modes.",
         note="Pure differential oracle: the baseline run of the real mock is the expected value; no reference model involved."),
     "C05": dict(
         engine="G", category="exploration", design="3/C05",
@@ -80,42 +80,42 @@ CHECKS = {
     "C06": dict(
         engine="G", category="exploration", design="3/C06",
         technique="exhaustive enumeration of a catalogue-driven grammar of matching! invocations, each evaluated on its whole finite argument domain against a native Rust match",
-        text="Sub-patterns of 11 argument types (literals, ranges, wildcards, bindings, @-bindings, or-patterns, tuple/struct/enum/Option patterns, slice patterns with rest, string literals against &str/String/AsRef<str> newtype, bare unit variants, eq!/ne!), 1-3 arguments, simple and disjunctive form (2-4 alternatives, every pair over a sub-pattern set with eq!/ne! in all positions), guards incl. || combined with eq!/ne!, mixed literal kinds per position. Every argument tuple of the domain in three modes (unordered strict, unordered with fallback, ordered) must be accepted iff the emitted native match accepts it. Also: guards that read state outside the arguments (arity 0..2, evaluated per call), disjunctions whose alternatives differ only inside a struct / enum / tuple pattern or in their path, three and four alternatives as documented.",
-        note=G_NOTE + " Two genuine defects found by this check were fixed in /repo (guard precedence, three alternatives)."),
+        text="Sub-patterns of 11 argument types (literals, ranges, wildcards, bindings, @-bindings, or-patterns, tuple/struct/enum/Option patterns, slice patterns with rest, string literals against &str/String/AsRef<str> newtype, bare unit variants, eq!/ne!), 1-3 arguments, simple and disjunctive form (2-4 alternatives, every pair over a sub-pattern set with eq!/ne! in all positions), guards incl. || combined with eq!/ne!, mixed literal kinds per position. Every argument tuple of the domain in three modes (unordered strict, unordered with fallback, ordered) must be accepted iff the emitted native match accepts it. Also: guards that read state outside the arguments (arity 0..2, evaluated per call), disjunctions whose alternatives differ only inside a struct / enum / tuple pattern or in their path, three and four alternatives as documented. Bindings named like identifiers of the expansion (a<i>, l<k>, m<i>, reporter, mismatch) next to eq!/ne! and string literals must compile and decide like the native match; eq!/ne! mixed at one position across alternatives.",
+        note=G_NOTE + " Three genuine defects found by this check were fixed in /repo (guard precedence, three alternatives, bindings capturing temporaries of the expansion)."),
     "C11": dict(
         engine="F", category="fault_enumeration", design="3/C11",
         technique="exhaustive crash-point enumeration: one child process per (panic origin x instance topology x expectation) cell, exit status and panic reports judged by the parent",
-        text="23 panic origins (before/after calls, matcher, ordered matcher, answer, real function, default body, a mock error inside a default body, argument Debug, return Clone, every mock-induced error kind, by-value default body, a caught clone error followed by a user panic) x 15 topologies (plain, clone outliving / dying first, clone parked on another thread, Box/Rc/Arc, foreign creator thread with and without clone, origin on a worker thread holding a clone or the original, caught-and-continue, caught-and-repeat-the-same-call, original inside a guard whose Drop calls verify() with and without a live clone) x expectation met/unmet = 569 cells. No child may die by signal; exit status and number of panic reports must be what the cell implies; the first report is the injected panic, none is one of teardown's own sentences; caught cells keep working and verify according to the calls actually matched.",
+        text="23 panic origins (before/after calls, matcher, ordered matcher, answer, real function, default body, a mock error inside a default body, argument Debug, return Clone, every mock-induced error kind, by-value default body, a caught clone error followed by a user panic) x 15 topologies (plain, clone outliving / dying first, clone parked on another thread, Box/Rc/Arc, foreign creator thread with and without clone, origin on a worker thread holding a clone or the original, caught-and-continue, caught-and-repeat-the-same-call, original inside a guard whose Drop calls verify() with and without a live clone) x expectation met/unmet = 569 cells. No child may die by signal; exit status and number of panic reports must be what the cell implies; the first report is the injected panic, none is one of teardown's own sentences; caught cells keep working and verify according to the calls actually matched. As built: 24 origins (also a caught ordered-matcher panic while another thread completed the next ordered call) x 19 topologies (also caught-and-retry, verify() in a guard, lending clone, clone surviving the original, 20 000 lent values unwound on a small stack, a guard using mocks while unwinding), run on the std build and on std + critical-section.",
         note="std build; a double panic is observed as SIGABRT of the child. The table is enumerated completely in both tiers."),
     "C14": dict(
         engine="G+S", category="exploration", design="3/C14",
         technique="exhaustive enumeration of tuple shapes / offending-clause positions (generated self-checking programs) plus an exhaustive sweep of builder call chains against rustc",
-        text="Order: every flat tuple arity 2..16, every nesting tree with <= 5 (quick) / 7 (thorough) leaves, unit elements at every position, every arity nested on either side: slot ranges after assembly are consecutive in declaration order, exactly the left-to-right call order is accepted, the leftmost overlapping unordered clause answers (staggered overlaps check every position), ordered clauses interleaved with exactly quantified unordered ones and ordered clauses with exact counts 0..2 keep their sequence, final verification is silent. Rejection at construction: ordered+unordered clauses of one method at every pair of positions (quick: all pairs for arities 2,3,16; thorough: every arity), both orders, also with an ordered count of 0 or 2; empty stub at every position, also after an earlier mention of the method; single-use returns in the feature set without mutex, alone and inside response chains. Compile time: every valid builder prefix up to length 3 / 5 extended by every builder method and by use-as-clause must be accepted / rejected by rustc exactly as the reference automaton says; 1- and 17-tuples rejected.",
+        text="Order: every flat tuple arity 2..16, every nesting tree with <= 5 (quick) / 7 (thorough) leaves, unit elements at every position, every arity nested on either side: slot ranges after assembly are consecutive in declaration order, exactly the left-to-right call order is accepted, the leftmost overlapping unordered clause answers (staggered overlaps check every position), ordered clauses interleaved with exactly quantified unordered ones and ordered clauses with exact counts 0..2 keep their sequence, final verification is silent. Rejection at construction: ordered+unordered clauses of one method at every pair of positions (quick: all pairs for arities 2,3,16; thorough: every arity), both orders, also with an ordered count of 0 or 2; empty stub at every position, also after an earlier mention of the method; single-use returns in the feature set without mutex, alone and inside response chains. Compile time: every valid builder prefix up to length 3 / 5 extended by every builder method and by use-as-clause must be accepted / rejected by rustc exactly as the reference automaton says; 1- and 17-tuples rejected. The construction cells are also run in no_std + spin-lock, where each of them must construct.",
         note=G_NOTE),
     "C15": dict(
         engine="G", category="exploration", design="3/C15",
         technique="exhaustive enumeration of a bounded grammar of provided-method shapes; generated programs mix direct and delegated calls and compare with the generator's evaluator",
-        text="Receiver of the provided method x default body calling 0..3 required methods (plus a by-value required call, plus a lent reference) x signature {(u8), (u8,&str,&mut u32)} x {no clause, applies_default_impl()} x {strict, partial} x {unordered exact counts, one global ordered sequence}. History: direct call, delegated call, direct call, delegated call. The body runs once per call with the caller's arguments, results equal the body evaluated over the mock's answers, all required calls are counted on the shared state (H3), the ordered index advances as for direct calls, final verification is silent. Also: verification by verify() and with an unmet expectation, a by-value receiver travelling through the default body, associated consts / types read by the default body (attribute overrides), a provided method that also has an unmock function.",
+        text="Receiver of the provided method x default body calling 0..3 required methods (plus a by-value required call, plus a lent reference) x signature {(u8), (u8,&str,&mut u32)} x {no clause, applies_default_impl()} x {strict, partial} x {unordered exact counts, one global ordered sequence}. History: direct call, delegated call, direct call, delegated call. The body runs once per call with the caller's arguments, results equal the body evaluated over the mock's answers, all required calls are counted on the shared state (H3), the ordered index advances as for direct calls, final verification is silent. Also: verification by verify() and with an unmet expectation, a by-value receiver travelling through the default body, associated consts / types read by the default body (attribute overrides), a provided method that also has an unmock function. Also: associated types in the signatures of required methods the body calls (Self::T and <Self as Tr>::T), and a trait mocked through mirror= (placeholder bodies; unit and non-unit provided methods, with and without applies_default_impl()).",
         note=G_NOTE + " Rc/Arc receivers are driven with the caller keeping a second handle."),
     "C16": dict(
         engine="G", category="exploration", design="3/C16",
         technique="exhaustive enumeration of a bounded grammar of unmock_with configurations; generated programs log the real function's invocations",
-        text="Receiver x parameter lists x unmock_with form {path, path(self,..), reordered, params only, _} x (methods in trait, position, skipped static fn in front) x {sync, async} x {strict + applies_unmocked, partial fall-through, partial mentioned-but-unmatched} x {required, provided with default body}; recursion depth 0..3 through the mock. The registered function runs exactly once per level with the mock and the caller's arguments in order, result unchanged, re-entrant calls hit the shared counters; `_` panics naming the method; unmentioned provided methods prefer the default body; a provided sibling method in the trait changes nothing for a required method; the error of an unmock without function is about its own call also after another recorded error.",
+        text="Receiver x parameter lists x unmock_with form {path, path(self,..), reordered, params only, _} x (methods in trait, position, skipped static fn in front) x {sync, async} x {strict + applies_unmocked, partial fall-through, partial mentioned-but-unmatched} x {required, provided with default body}; recursion depth 0..3 through the mock. The registered function runs exactly once per level with the mock and the caller's arguments in order, result unchanged, re-entrant calls hit the shared counters; `_` panics naming the method; unmentioned provided methods prefer the default body; a provided sibling method in the trait changes nothing for a required method; the error of an unmock without function is about its own call also after another recorded error. Also ordered series whose segments resolve to the real function (n_times(k).then() with an unquantified tail; a value first, then the real function) with recursion through the same mock.",
         note=G_NOTE + " The genuine defect found here (&mut self / Pin receivers never unmocked) was fixed in /repo."),
     "C17": dict(
         engine="G", category="exploration", design="3/C17",
         technique="exhaustive enumeration of a bounded grammar of return types and their variants; generated programs compare observed and configured values",
-        text="Return types over {Option, Result, Vec, Poll, 1-4-tuples} x leaves {u32, non-Clone, &u32, &str, &[u8], &'static u32}, depth <= 2 (quick) / 3 (thorough); every variant and Vec lengths 0..4; single-use path and (if Clone) multi-use path. Observed value structurally equal (Debug with distinct payloads), borrowed leaves at the same addresses on repeated calls, second request panics exactly when the produced variant contains an owned leaf on the single-use path.",
+        text="Return types over {Option, Result, Vec, Poll, 1-4-tuples} x leaves {u32, non-Clone, &u32, &str, &[u8], &'static u32}, depth <= 2 (quick) / 3 (thorough); every variant and Vec lengths 0..4; single-use path and (if Clone) multi-use path. Observed value structurally equal (Debug with distinct payloads), borrowed leaves at the same addresses on repeated calls, second request panics exactly when the produced variant contains an owned leaf on the single-use path. Response series (n_times(0).then(), once().then(), ordered n_times(2).then(), three segments) over every pair of adjacent values: each call observes the value configured for its position.",
         note=G_NOTE),
     "C19": dict(
         engine="G", category="exploration", design="3/C19",
         technique="exhaustive enumeration of parameter-type lists x error kinds and of sub-pattern tuples x failing argument tuples; generated programs compare exact message texts / parsed mismatch entries",
-        text="(A) parameter lists over 12 kinds (incl. &, &mut, &&, slices, non-Debug by value and reference, Option<&T>, generics with/without Debug) of arity 1-4 x 9 mock-induced error kinds: exact message predicted (call rendered with arguments in order, '?' without Debug, path only for missing real/default implementation). Post-selection failures (explicit panic, exhausted single-use value, no output) raised by the second pattern of a method name that pattern (by index, or by source text and line). (B) every tuple of 2-3 sub-patterns over {literal, _, or-literals, eq!, ne!} and over Option<u8> sub-patterns incl. refutable bare identifiers x every failing argument tuple of the domain, unordered (1 and 2 patterns), ordered and ordered with a multi-line invocation: the report lists exactly the rejected positions with kind and actual value; ordered messages name the pattern by source text and file:line.",
+        text="(A) parameter lists over 12 kinds (incl. &, &mut, &&, slices, non-Debug by value and reference, Option<&T>, generics with/without Debug) of arity 1-4 x 9 mock-induced error kinds: exact message predicted (call rendered with arguments in order, '?' without Debug, path only for missing real/default implementation). Post-selection failures (explicit panic, exhausted single-use value, no output) raised by the second pattern of a method name that pattern (by index, or by source text and line). (B) every tuple of 2-3 sub-patterns over {literal, _, or-literals, eq!, ne!} and over Option<u8> sub-patterns incl. refutable bare identifiers x every failing argument tuple of the domain, unordered (1 and 2 patterns), ordered and ordered with a multi-line invocation: the report lists exactly the rejected positions with kind and actual value; ordered messages name the pattern by source text and file:line. Typed positions also cover &str with string-literal or-patterns, char with ranges, and a type whose Debug hides the field == reads (under eq!/ne!): the listed value is the Debug rendering.",
         note=G_NOTE + " Built without pretty-print. Messages under concurrency are covered by C10 (each panic renders its own call; sequential-candidate oracle)."),
     "C20": dict(
         engine="S-style", category="exploration", design="3/C20",
         technique="exhaustive enumeration of environment-answer scripts replayed by the mock and by a plain struct implementing the upstream trait (differential), plus the complete entry-point wiring table",
-        text="Wiring: all 83 methods of all mirrored traits (core fmt/hash, std error/io, tokio io, futures io, embedded-hal delay/digital/i2c/pwm/spi): a mock with a logging clause on every method; each method called through the upstream trait logs exactly itself. Composition: every script of length <= 3 (quick) / 4 (thorough) over chunk sizes {0,1,2,3}, payload chunks, Interrupted, Other through write_all/write_vectored/write!/flush, read_exact/read_to_end/read_to_string/read_vectored, read_until/read_line, rewind/stream_position, Hasher::write_*, format!, DelayNs::delay_us/ms, set_state, toggle, I2c read/write/write_read, SetDutyCycle::*, SpiDevice::*, tokio/futures vectored polls, strict and partial: identical results, buffers and required-method call sequences (thorough: scripts <= 5). Also: the drivers on a clone living on another thread with report() on the original; provided methods that are mocked themselves (matching input: configured response; unmatched input on a strict mock: loud failure; no required-method call either way); 2 000 / 12 000-chunk scripts through read_until on 64 / 256 KiB stacks (child process); Debug and Display of self inside a delegated default body of a user trait; no_verify_in_drop + provided method + verify(); Error::source lending a derived mock.",
+        text="Wiring: all 83 methods of all mirrored traits (core fmt/hash, std error/io, tokio io, futures io, embedded-hal delay/digital/i2c/pwm/spi): a mock with a logging clause on every method; each method called through the upstream trait logs exactly itself. Composition: every script of length <= 3 (quick) / 4 (thorough) over chunk sizes {0,1,2,3}, payload chunks, Interrupted, Other through write_all/write_vectored/write!/flush, read_exact/read_to_end/read_to_string/read_vectored, read_until/read_line, rewind/stream_position, Hasher::write_*, format!, DelayNs::delay_us/ms, set_state, toggle, I2c read/write/write_read, SetDutyCycle::*, SpiDevice::*, tokio/futures vectored polls, strict and partial: identical results, buffers and required-method call sequences (thorough: scripts <= 5). Also: the drivers on a clone living on another thread with report() on the original; provided methods that are mocked themselves (matching input: configured response; unmatched input on a strict mock: loud failure; no required-method call either way); 2 000 / 12 000-chunk scripts through read_until on 64 / 256 KiB stacks (child process); Debug and Display of self inside a delegated default body of a user trait; no_verify_in_drop + provided method + verify(); Error::source lending a derived mock. Clause scripts written as one flat tuple of every arity 2..16 and as nested tuples, and a counted any-order clause at every position among ordered steps, driven through write_all.",
         note="Differential oracle = plain struct sharing the script function with the mock's answers; features mock-core, mock-std, mock-tokio-1, mock-futures-io-0-3, mock-embedded-hal-1."),
 }
 
